@@ -13,7 +13,7 @@
    NOT covered here: everything outside [tree_sem] (casts, neg/inv, loads/stores, moves, jumps, calls, labels,
    frame-relative addressing, floats), register allocation, frame layout, other targets. *)
 From PV Require Import Lib.Py Spec.IRSyntax Spec.IRSem Spec.RV32Decode Spec.RV32Exec Model.RvRules
-  Gen.Tab_rv_patterns Gen.Tab_rv_bad Proofs.C05_arith Proofs.C05_rules Proofs.C05_mem Proofs.C05_ext Proofs.C05_table Model.RvFrame Proofs.C05_frame.
+  Gen.Tab_rv_patterns Gen.Tab_rv_bad Proofs.C05_arith Proofs.C05_rules Proofs.C05_mem Proofs.C05_ext Proofs.C05_ext2 Proofs.C05_table Model.RvFrame Proofs.C05_frame.
 From Coq Require Import String.
 Open Scope Z_scope.
 Open Scope list_scope.
@@ -61,7 +61,8 @@ Print Assumptions c05_rv_rule_refuted.
 (* every rule in the scope of tree_sem is proved, refuted, or explicitly listed as undecided *)
 Theorem c05_rv_rules_decided :
   forallb (fun n => let r := rule_at n in
-                    negb (in_scope r) || check_rule r || existsb (fun w => Nat.eqb (fst (fst w)) n) rv_rules_bad ||
+                    negb (in_scope r) || check_rule r || check_subword_bin r ||
+                    existsb (fun w => Nat.eqb (fst (fst w)) n) rv_rules_bad ||
                     existsb (Nat.eqb n) rv_rules_undecided)
           (seq 0 (List.length rv_rules)) = true.
 Proof. exact rules_decided. Qed.
@@ -146,6 +147,23 @@ Print Assumptions c05_rv_cjmp_ext_rule_sound.
 Theorem c05_rv_unary_rule_sound : forall r, check_unary r = true -> unary_correct r.
 Proof. exact check_unary_sound. Qed.
 Print Assumptions c05_rv_unary_rule_sound.
+
+(* ---- wave 4 (Proofs/C05_ext2.v): SHRU8/16, SHRI8/16 (extend the left operand into a temporary, then srl/sra
+   by the right operand) and DIVU/REMU 8/16 (zero-extend both operands, then divu/remu) satisfy the same
+   rule_correct as the one-instruction rules; address rows: mem: reg and mem: FPRELU32 emit no code and hand on a
+   (base, offset) pair whose offset is within 12 bits (this discharges mem_off_ok of the load/store theorems);
+   reg: FPRELU32 computes fp + offset *)
+Theorem c05_rv_subword_rule_sound : forall r, check_subword_bin r = true -> rule_correct r.
+Proof. exact check_subword_bin_sound. Qed.
+Print Assumptions c05_rv_subword_rule_sound.
+
+Theorem c05_rv_mem_address_rule_sound : forall r, check_memprod r = true -> memprod_correct r.
+Proof. exact check_memprod_sound. Qed.
+Print Assumptions c05_rv_mem_address_rule_sound.
+
+Theorem c05_rv_fprel_rule_sound : forall r, check_fprel_reg r = true -> fprel_correct r.
+Proof. exact check_fprel_reg_sound. Qed.
+Print Assumptions c05_rv_fprel_rule_sound.
 
 (* ---- c05_rv_callconv: frame code and argument locations on the abstract frame machine of Model/RvFrame.v
    (registers + word slots addressed by byte address; the printed prologue/epilogue instruction lists are
